@@ -164,6 +164,11 @@ func (t *Trailer) SetTrailers(trailers []byte) (err error) {
 			trailerKey = trailerKey[:len(trailerKey)-1]
 		}
 
+		if len(trailerKey) == 0 {
+			// ignore empty list elements, e.g. "a,,b" or a trailing comma
+			continue
+		}
+
 		utils.NormalizeHeaderKey(trailerKey, t.disableNormalizing)
 		err = t.addArgBytes(trailerKey, nil, argsNoValue)
 	}
@@ -186,6 +191,9 @@ func (t *Trailer) AppendBytes(dst []byte) []byte {
 }
 
 func IsBadTrailer(key []byte) bool {
+	if len(key) == 0 {
+		return true
+	}
 	switch key[0] | 0x20 {
 	case 'a':
 		return utils.CaseInsensitiveCompare(key, bytestr.StrAuthorization)
